@@ -149,6 +149,7 @@ func cmdWorker(args []string) {
 	debug.SetMaxStack(mb << 20)
 	sim.Thorough = *tier == "thorough"
 	sim.OwnGC(2 << 30)
+	sim.StartHangMonitor()
 
 	var jf *os.File
 	if *journal != "" {
@@ -563,8 +564,13 @@ func superviseWorker(p *props.Prop, tier string, seed uint64, k, w int, b props.
 			trouble.Store(k, fmt.Sprintf("fatal error in run %d did not reproduce alone: %s", idx, tail(se, 1500)))
 			return acc, crashes
 		}
+		what := "the Go runtime aborted the process: "
+		cls := "fatal:" + fatalKind(se2.String())
+		if strings.HasPrefix(fatalKind(se2.String()), "no-return") {
+			what, cls = "a call into the library did not return: ", "no-return"
+		}
 		crashes = append(crashes, ViolOut{Property: p.ID, Tier: tier, RunSeed: sim.Mix(seed, p.ID, uint64(idx)), RunIndex: idx,
-			Class: "fatal:" + fatalKind(se2.String()), Detail: "the Go runtime aborted the process: " + fatalKind(se2.String()) + "\n" + crashSummary(se2.String()),
+			Class: cls, Detail: what + fatalKind(se2.String()) + "\n" + crashSummary(se2.String()),
 			Crash: true, CrashOut: head(se2.String(), 6000), Case: crashCase(se2.String())})
 		if len(crashes) >= 2 {
 			return acc, crashes
@@ -770,6 +776,7 @@ func cmdReplay(args []string) {
 			}
 			debug.SetMaxStack(mb << 20)
 			sim.OwnGC(2 << 30)
+			sim.StartHangMonitor()
 			r := sim.NewRun(v.RunSeed)
 			p.Exec(r)
 			r.Close()
@@ -782,7 +789,7 @@ func cmdReplay(args []string) {
 		cmd.Stdout = &se
 		err := cmd.Run()
 		if err != nil && strings.Contains(se.String(), "fatal error:") {
-			fmt.Printf("replay: the runtime aborted again: %s\n%s", fatalKind(se.String()), crashSummary(se.String()))
+			fmt.Printf("replay: the run aborted again: %s\n%s", fatalKind(se.String()), crashSummary(se.String()))
 			fmt.Printf("VIOLATION property=%s replay=%s\n", v.Property, args[0])
 			os.Exit(1)
 		}
